@@ -3,6 +3,7 @@ Scenario replay: parsing, oracle construction from tapes, canonical printing.
 Not part of any theorem; it is the executable half of the correspondence check.
 -/
 import Hb.Model.Api
+import Hb.Model.IterWrap
 import Hb.Proofs.Defs
 import Std.Data.HashMap
 namespace Hb.Driver
@@ -191,6 +192,42 @@ def resOutW (r : Res World) (w0 : World) : StepOut × Bool :=
   resOut (r.bind fun w => .ok ((), w)) (fun _ => "()") w0
 
 def nat! (s : String) : Nat := s.toNat!
+
+/-- Bucket behind an item yielded by a public iterator wrapper. -/
+def itemBucket : IW.Item → Nat
+  | .pair b _ => b | .key b _ _ => b | .val b _ _ => b | .elem b _ => b
+
+/-- The observation the harness makes on a borrowing iterator, executed on the WRAPPER model of the named
+    public type (`Hb/Model/IterWrap.lean`): `p` calls of `next` (size hint before each), then `fold` on the
+    iterator and — where the type is `Clone` — `next` until `None` on a clone taken at that point.
+    `Hb.IW.wrap_fold_eq_next` / `wrap_size_hint_exact` say what it must print in every valid state. -/
+def iterObserveW (cfg : Cfg) (t : Raw) (k : IW.Kind) (p : Nat) :
+    Except String (List Nat × List Nat × List Nat × List Nat) :=
+  match IW.Wrap.new cfg t k with
+  | .error f => .error f
+  | .ok w0 =>
+    let rec pre (n : Nat) (w : IW.Wrap) (acc hints : List Nat) :
+        Except String (List Nat × List Nat × IW.Wrap) :=
+      match n with
+      | 0 => .ok (acc.reverse, hints.reverse, w)
+      | n + 1 =>
+        match w.next cfg t with
+        | .error f => .error f
+        | .ok (none, w') => .ok (acc.reverse, (w.sizeHint.1 :: hints).reverse, w')
+        | .ok (some x, w') => pre n w' (itemBucket x :: acc) (w.sizeHint.1 :: hints)
+    match pre p w0 [] [] with
+    | .error f => .error f
+    | .ok (prefix_, hints, w1) =>
+      match w1.fold cfg t with
+      | .error f => .error f
+      | .ok folded =>
+        let fb := folded.map itemBucket
+        match w1.clone with
+        | none => .ok (prefix_, fb, fb, hints ++ [w1.sizeHint.1])
+        | some c =>
+          match c.nextN cfg t (t.buckets + 2) with
+          | .error f => .error f
+          | .ok (os, _) => .ok (prefix_, fb, (os.filterMap id).map itemBucket, hints ++ [w1.sizeHint.1])
 
 /-- Environment of an owning iterator consumed through `fold` by a consumer that panics at the `k`-th element
     (`1 ≤ k ≤ len`): the remaining elements are dropped WHILE UNWINDING, where the harness' destructors never
